@@ -75,9 +75,9 @@ func c10NewEnv(n int, minSelf, topCount int64) *c10Env {
 
 // SV_C10_election: one block-end election.
 //
-// sv:bounds 2 (quick) / 3 (thorough) candidate validator records at version h-1 with arbitrary power (0 <= p < 2^62; record present or absent), each arbitrary whether it was in the last commit (active), flagged malicious, has a status record, and its last purge height (0..h); TopValidatorCount in 1..number of candidates; minimum self delegation symbolic (1 <= m < 2^62); fee pool below the distribution threshold; no open allegation; h = 4
+// sv:bounds 2 (quick) / 3 (thorough) candidate validator records at version h-1 with arbitrary power (0 <= p < 2^62; record present or absent), each arbitrary whether it was in the last commit (active) and whether it signed it, flagged malicious, has a status record, and its last purge height (0..h); TopValidatorCount in 1..number of candidates; minimum self delegation symbolic (1 <= m < 2^62); fee pool below the distribution threshold; no open allegation; h = 4
 // sv:outside more candidates than stated; fee distribution (covered by C02 hooks); allegation verdicts in the same block (C19); the pipeline of pending updates over several blocks and convergence (not yet encoded)
-// sv:goal no duplicate key among the updates; every positive-power update names a candidate whose record at h-1 has power >= the minimum, is not flagged malicious, carries exactly that power, at most TopValidatorCount of them, and every eligible candidate left out has power <= every elected one; every zero-power update names a validator of the last commit that was not elected and was not already purged at h-1 or h-2 (Tendermint applies updates two blocks later)
+// sv:goal no duplicate key among the updates; every positive-power update names a candidate whose record at h-1 has power >= the minimum, is not flagged malicious, carries exactly that power, at most TopValidatorCount of them, and every eligible candidate left out has power <= every elected one; every zero-power update names a validator of the last commit that was not elected and was not already purged at h-1 or h-2 (Tendermint applies updates two blocks later); every member of the last commit (signed or not) that is not elected and has no removal in flight receives a zero-power update
 func SV_C10_election() {
 	n := 2 + sv.Tier() // quick: 2 candidates, thorough: 3
 	top := int64(1 + sv.Choice("topCount", n))
@@ -123,7 +123,8 @@ func SV_C10_election() {
 			continue // nothing known about this address: no further choices
 		}
 		if active[i] {
-			votes = append(votes, abci.VoteInfo{Validator: abci.Validator{Address: c.addr, Power: 1}})
+			// whether it signed the last block must not matter: it is in Tendermint's set either way
+			votes = append(votes, abci.VoteInfo{Validator: abci.Validator{Address: c.addr, Power: 1}, SignedLastBlock: sv.Bool(fmt.Sprint("signed", i))})
 		}
 		malicious[i] = sv.Bool(fmt.Sprint("malicious", i))
 		if malicious[i] {
@@ -132,6 +133,11 @@ func SV_C10_election() {
 		purge := sv.Int64(fmt.Sprint("purge", i))
 		sv.Assume(purge >= 0 && purge <= height)
 		purgeH[i] = purge
+		// reachable states only: a validator without a record is in the last commit only
+		// while its removal (issued in the block that deleted the record) is in flight
+		if !present[i] && active[i] {
+			sv.Assume(purge > 0 && height <= purge+2)
+		}
 		if purge > 0 {
 			e.vs.SetLastPurgeHeight(c.addr, purge)
 		}
@@ -190,6 +196,13 @@ func SV_C10_election() {
 			}
 			sv.Assert(nElected == top, "eligible-candidate-left-out-only-when-the-top-count-is-reached")
 			sv.Cover(true, "eligible-left-out")
+		}
+	}
+	// convergence: a member of the current set that is not elected gets its removal
+	// (unless one was issued within the last two blocks and is still in flight)
+	for i := 0; i < n; i++ {
+		if active[i] && !elected[i] && !(purgeH[i] > 0 && height <= purgeH[i]+2) {
+			sv.Assert(removed[i], "set-member-that-is-not-elected-is-removed")
 		}
 	}
 	sv.Cover(nElected > 0, "someone-elected")
